@@ -68,6 +68,7 @@ func lemmaObligation(P *Program, l *Lemma) (o *Obligation, err error) {
 	}
 	goal := env.trBool(l.Body)
 	bg = append(bg, fv.bg...)
+	bg = append(bg, axiomsFor(e, nil)...)
 	scr := e.script(bg, "(assert "+not(goal)+")", nil)
 	name := shortPkg(l.Pkg) + ".lemma:" + l.Name
 	return &Obligation{Name: name, Kind: "lemma", Props: l.Props, Func: name, Pos: fmt.Sprintf("%s:%d", l.File, l.Line), Desc: "lemma " + exprString(l.Body), lemma: &lemmaVC{script: scr}, Goal: goal}, nil
@@ -213,19 +214,30 @@ func tableEntryObligation(P *Program, tb *TableSpec, key, fnName string) (obls [
 			}
 			return env
 		}
+		bindRes := func(env *Env, aliases []string) {
+			res := fn.Signature.Results()
+			for i, a := range aliases {
+				if i < res.Len() {
+					env.vars[a] = TV{e.constant("r_"+sanitizeIdx(i), e.sortOf(res.At(i).Type())), res.At(i).Type()}
+				}
+			}
+		}
 		var bg []string
 		cpre := mk(c.Params, c.Pkg, pre)
 		for _, r := range c.Requires {
 			bg = append(bg, "(assert "+cpre.trBool(r.E)+")")
 		}
 		cpost := mk(c.Params, c.Pkg, post)
+		bindRes(cpost, c.Results)
 		for _, en := range c.Ensures {
 			bg = append(bg, "(assert "+cpost.trBool(en.E)+")")
 		}
 		tenv := mk(tb.Params, tb.Pkg, post)
+		bindRes(tenv, tb.Results)
 		tenv.vars[tb.KeyVar] = TV{e.strLit(key), tyString}
 		goal := tenv.trBool(sem.E)
 		bg = append(bg, fv.bg...)
+		bg = append(bg, axiomsFor(e, nil)...)
 		oname := fmt.Sprintf("%s.table:%s[%s]/sem%d", shortPkg(tb.Pkg), tb.Var, key, k)
 		obls = append(obls, &Obligation{Name: oname, Kind: "table", Props: tb.Props, Func: oname, Pos: fmt.Sprintf("%s:%d", tb.File, tb.Line),
 			Desc: fmt.Sprintf("entry %q ↦ %s of %s: contract of %s implies %s", key, fnName, tb.Var, fnName, exprString(sem.E)), Goal: goal,
@@ -347,7 +359,14 @@ func refineOne(P *Program, ic *FuncContract, ifaceT types.Type, c *FuncContract,
 		e := newEnc(P)
 		fv := &FuncVC{P: P, e: e, name: base, oblCount: map[string]int{}, assumptions: map[string]bool{}, oblBlk: -1}
 		pre := &State{kind: sEntry, h: map[string]Term{}, fv: fv}
-		post := &State{kind: sHavoc, h: map[string]Term{}, parent: pre, havocAll: true, havoc: map[string]bool{}, site: "post", guard: "true", fv: fv}
+		// post state of the implementation: only what its contract lets it change differs
+		allocates := false
+		for _, en := range c.Ensures {
+			if exprMentionsCall(en.E, "fresh") {
+				allocates = true
+			}
+		}
+		post := &State{kind: sHavoc, h: map[string]Term{}, parent: pre, havocAll: allocates, havoc: map[string]bool{"alloc": true}, site: "post", guard: "true", fv: fv, bound: pre.get("alloc")}
 		var ps []Term
 		var bg []string
 		for i, p := range fn.Params {
@@ -378,6 +397,12 @@ func refineOne(P *Program, ic *FuncContract, ifaceT types.Type, c *FuncContract,
 			return env
 		}
 		iPre, cPre := mk(ic, pre, true), mk(c, pre, false)
+		for _, m := range c.Modifies {
+			for _, me := range fv.modTargets(cPre, m) {
+				post.havoc[me.heap] = true
+				post.exclude = append(post.exclude, me)
+			}
+		}
 		for _, r := range ic.Requires {
 			bg = append(bg, "(assert "+iPre.trBool(r.E)+")")
 		}
@@ -421,6 +446,7 @@ func refineOne(P *Program, ic *FuncContract, ifaceT types.Type, c *FuncContract,
 			goal = and(gs...)
 		}
 		bg = append(bg, fv.bg...)
+		bg = append(bg, axiomsFor(e, nil)...)
 		return &Obligation{Name: base + "/" + kind, Kind: "refine", Props: props, Func: shortFuncName(fn), Pos: fmt.Sprintf("%s:%d", c.File, c.Line),
 			Desc: fmt.Sprintf("contract of %s refines the interface contract %s.%s (%s)", shortFuncName(fn), ic.Recv, ic.Name, kind), Goal: goal,
 			lemma: &lemmaVC{script: e.script(bg, "(assert "+not(goal)+")", nil)}}
@@ -449,6 +475,7 @@ func strmapEntryObligation(P *Program, tb *TableSpec, key, val string, entries m
 		env.vars[tb.KeyVar] = TV{e.strLit(key), tyString}
 		env.vars[tb.ValVar] = TV{e.strLit(val), tyString}
 		goal := env.trBool(sem.E)
+		fv.bg = append(fv.bg, axiomsFor(e, nil)...)
 		oname := fmt.Sprintf("%s.strmap:%s[%s]/sem%d", shortPkg(tb.Pkg), tb.Var, key, k)
 		obls = append(obls, &Obligation{Name: oname, Kind: "table", Props: tb.Props, Func: oname, Pos: fmt.Sprintf("%s:%d", tb.File, tb.Line),
 			Desc: fmt.Sprintf("entry %q ↦ %q of %s satisfies %s", key, val, tb.Var, exprString(sem.E)), Goal: goal,
